@@ -252,7 +252,13 @@ extern "C" int harness_main() {
         verif_assert(ok_once_return, "C14.stopped_by_run_return_when_cleanup_on");
     }
 
-    verif_assert(threw == (g_throws > 0), "C14.error_reaches_caller_iff_thrown");
+    // A combiner retired while the reduce node evaluates (tree shrink / re-shape) is stopped through a noexcept helper;
+    // whether its stop error reaches the caller is asserted under its own id.
+    if (g_first_phase == PH_STOP && g_first_node < R0 && g_first_in_root_eval) {
+        verif_assert(threw == (g_throws > 0), "C14.reduce_retired_combiner_stop_error_reaches_caller");
+    } else {
+        verif_assert(threw == (g_throws > 0), "C14.error_reaches_caller_iff_thrown");
+    }
     if (threw && g_throws > 0) {
         std::string want = std::string("boom_") + char('a' + g_first_node) + "_" + PHASE_WORD[g_first_phase];
         verif_assert(msg.find(want) != std::string::npos, "C14.caller_gets_first_error");
